@@ -1,1 +1,11 @@
-//! vh-schema (stub)
+//! vh-schema: glue between the harness model and the real async-graphql crate:
+//! event log, value conversions, dynamic-schema builder driven by the model,
+//! response comparison against the reference executor.
+
+pub mod compare;
+pub mod conv;
+pub mod dynb;
+pub mod env;
+pub mod s1;
+
+pub use env::{Ek, Env, Event, EventLog};
